@@ -1,9 +1,7 @@
 ---- MODULE Prof ----
 EXTENDS Trace
-N == Len(Rec[1].in)
-Inp(n) == SubSeq(Rec[1].in, 1, n)
-T(n, reps) == \A x \in 1..reps : ScanComplete("float", FMT[1], DefaultPF, Inp(n), n).v \in {"A", "R"}
-TR(n, reps) == \A x \in 1..reps : Run("float", FMT[1], DefaultPF, Inp(n), n).st.ph \in {"I", "F", "R"}
-ASSUME PrintT(N)
-ASSUME IF IOEnv.MODE = "scan" THEN T(IOEnv.NN, 20) ELSE TR(IOEnv.NN, 20)
+ASSUME PrintT(<<"validity", FormatValidity(FMT[90], [format |-> TRUE, pow2 |-> TRUE, radix |-> TRUE]), FMT[90].no_special, FMT[90].case_sensitive_special>>)
+ASSUME PrintT(<<"cv", ConfigValidity(Rec[1], TRUE), Contract(Rec[1])>>)
+PInit == l = 0 /\ ep = 0 /\ obs = <<>> /\ bad = <<>>
+PNext == UNCHANGED vars
 ====
